@@ -1,0 +1,111 @@
+//! Verification hook (feature `verif`): drive the socket dispatcher one loop
+//! iteration at a time from an external harness, and read its tables.
+//! Construction is `new_with_opts_and_dispatcher` (what `new_with_opts` spawns);
+//! nothing here changes behaviour.
+
+use std::{net::SocketAddr, sync::Arc};
+
+use crate::{
+    SocketOpts, UtpSocket,
+    traits::{Transport, UtpEnvironment},
+};
+
+use super::{ControlRequest, Dispatcher};
+
+pub struct DispatcherDriver<T: Transport, E: UtpEnvironment> {
+    d: Dispatcher<T, E>,
+    buf: Vec<u8>,
+}
+
+impl<T: Transport, E: UtpEnvironment> DispatcherDriver<T, E> {
+    pub fn new(
+        transport: T,
+        env: E,
+        opts: SocketOpts,
+    ) -> crate::Result<(Arc<UtpSocket<T, E>>, Self)> {
+        let (sock, d) = UtpSocket::new_with_opts_and_dispatcher(transport, env, opts)?;
+        Ok((
+            sock,
+            Self {
+                d,
+                buf: vec![0u8; 16384],
+            },
+        ))
+    }
+
+    /// One iteration of `run_forever`'s loop.
+    pub async fn run_once(&mut self) -> crate::Result<()> {
+        self.d.run_once(&mut self.buf).await
+    }
+
+    /// What a connection's task sends when it ends (its drop guard).
+    pub fn send_shutdown(&self, addr: SocketAddr, conn_id: u16) {
+        let _ = self
+            .d
+            .socket
+            .control_requests
+            .send(ControlRequest::Shutdown((addr, conn_id.into())));
+    }
+
+    /// (pending control requests, acceptors waiting in the channel, an acceptor is cached)
+    pub fn queue_lens(&self) -> (usize, usize, bool) {
+        (
+            self.d.control_rx.len(),
+            self.d.accept_queue.rx.len(),
+            self.d.accept_queue.next_available_acceptor.is_some(),
+        )
+    }
+
+    /// Canonical text of the demultiplexing tables.
+    pub fn fingerprint(&self) -> String {
+        let d = &self.d;
+        let mut streams: Vec<String> = d
+            .streams
+            .iter()
+            .map(|((a, id), tx)| format!("{a}/{id}{}", if tx.is_closed() { "/dead" } else { "" }))
+            .collect();
+        streams.sort();
+        let mut connecting: Vec<String> = d
+            .connecting
+            .iter()
+            .map(|(a, c)| {
+                let slots: Vec<String> = c
+                    .slots
+                    .iter()
+                    .map(|s| match s {
+                        Some(c) => format!(
+                            "{}{}",
+                            c.seq_nr,
+                            if c.requester.tx.is_closed() { "x" } else { "" }
+                        ),
+                        None => "-".into(),
+                    })
+                    .collect();
+                format!("{a}={}:{}", slots.join("."), c.len)
+            })
+            .collect();
+        connecting.sort();
+        let syns: Vec<String> = d
+            .accept_queue
+            .syns
+            .iter()
+            .map(|s| {
+                format!(
+                    "{}/{}/{}",
+                    s.remote, s.header.connection_id, s.header.seq_nr
+                )
+            })
+            .collect();
+        let (ctl, accq, next) = self.queue_lens();
+        format!(
+            "streams=[{}] connecting=[{}] syns=[{}] next_acc={} acc_q={} ctl_q={} next_cid={}",
+            streams.join(","),
+            connecting.join(","),
+            syns.join(","),
+            next as u8,
+            accq,
+            ctl,
+            d.next_connection_id
+        )
+    }
+}
